@@ -101,6 +101,9 @@ let register (reg : string -> (string list -> string) -> unit) =
   reg "alloc_set" (fun a -> set_state a; "ok");
   reg "alloc_state" (fun _ -> state_string ());
   reg "alloc_op" op;
+  reg "growend" (fun a -> match a with
+    | [o; n; d; m] -> string_of_z (grow_data_end (z_of_string o) (z_of_string n) (z_of_string d) (z_of_string m))
+    | _ -> failwith "args");
   reg "quota" (fun a -> match a with
     | [t; u; s; g] -> let (mn, mx) = quota (z_of_string t) (z_of_string u) (z_of_string s) (z_of_string g) in
       string_of_z mn ^ " " ^ string_of_z mx
